@@ -457,7 +457,9 @@ def shell_desc(rng, models=None, cone=None, mmax=4, nmax=3, springs=True):
     L = r2 * logu(rng, 0.3, 4)
     d['r2'] = r2; d['L'] = L
     h = r2 * logu(rng, 2e-3, 2e-2)
-    if model.startswith('iso_'):
+    if model.startswith('iso_') or ('clpt' in model and rng.random() < 0.1):
+        # isotropic wall given through (E11, nu, h): the only input of the iso_ short-cuts, and an alternative input route of the
+        # general classical models (the first-order-shear models refuse it)
         d['E11'] = logu(rng, 1e9, 3e11); d['nu'] = float(rng.uniform(0.0, 0.45)); d['h'] = h
     else:
         n = int(rng.integers(1, 5))
